@@ -78,8 +78,11 @@ func c16Threshold(c *Ctx) {
 						}
 						switch x := m.(type) {
 						case *ast.BinaryExpr:
-							if id, ok := x.Y.(*ast.Ident); ok && info.ObjectOf(id) == thr && x.Op == token.LSS {
-								out = "cmp(" + strings.ReplaceAll(core.ExprStr(x.X), " ", "") + "<" + ev(id) + ")"
+							if tid, op, other, ok := core.Oriented(x, func(e ast.Expr) bool {
+								id, isId := e.(*ast.Ident)
+								return isId && info.ObjectOf(id) == thr
+							}); ok && op == token.GTR { // threshold > counter  ==  counter < threshold
+								out = "cmp(" + strings.ReplaceAll(core.ExprStr(other), " ", "") + "<" + ev(tid) + ")"
 							}
 						case *ast.IncDecStmt:
 							if x.Tok == token.INC && strings.Contains(core.ExprStr(x.X), "failCount") {
